@@ -217,6 +217,8 @@ struct MOp {
     counted_in_quota: bool,
     quota_freed: bool,
     completion_checked: bool,
+    /// the identifier on the wire has been compared with those of the other outstanding operations
+    id_checked: bool,
     /// a SUBSCRIBE whose length is within the subscription-identifier band of the server's
     /// Maximum Packet Size: a local size refusal is as acceptable as sending it
     size_unclear: bool,
@@ -399,6 +401,44 @@ impl<'a> Sim<'a> {
                         "C10/receive-maximum-exceeded",
                         format!("{o} QoS>0 PUBLISH packets outstanding on the wire, Receive Maximum is {r}"),
                     );
+                }
+            }
+        }
+        // C11: the identifier of every request newly on the wire is non-zero and differs from
+        // that of every other operation on the wire whose final acknowledgement has not been fed
+        for i in 0..self.mops.len() {
+            if self.mops[i].id_checked || !self.tr.on_wire(i) || !matches!(self.mops[i].kind, OpKind::Pub1 | OpKind::Pub2 | OpKind::Sub(_) | OpKind::Unsub(_)) {
+                continue;
+            }
+            self.mops[i].id_checked = true;
+            let Some(pid) = self.tr.pid(i) else { continue };
+            if pid == 0 {
+                self.fail("C11/packet-identifier-zero", format!("operation {i} ({}) is on the wire with packet identifier 0", kind_name(self.mops[i].kind)));
+                continue;
+            }
+            let clash = (0..self.mops.len()).find(|j| {
+                *j != i
+                    && self.mops[*j].id_checked
+                    && self.tr.on_wire(*j)
+                    && self.tr.pid(*j) == Some(pid)
+                    && self.mops[*j].final_step.is_none()
+                    && matches!(self.mops[*j].kind, OpKind::Pub1 | OpKind::Pub2 | OpKind::Sub(_) | OpKind::Unsub(_))
+            });
+            if let Some(j) = clash {
+                self.fail(
+                    "C11/identifier-reused-while-outstanding",
+                    format!(
+                        "operation {i} ({}) went out with packet identifier {pid}, which operation {j} ({}) is still using (its final acknowledgement has not been sent)",
+                        kind_name(self.mops[i].kind),
+                        kind_name(self.mops[j].kind)
+                    ),
+                );
+            }
+            if let OpKind::Sub(_) = self.mops[i].kind {
+                let sid = self.tr.sub_id(i);
+                let dup = (0..self.mops.len()).find(|j| *j != i && matches!(self.mops[*j].kind, OpKind::Sub(_)) && self.tr.on_wire(*j) && self.tr.sub_id(*j) == sid);
+                if sid.is_none() || dup.is_some() {
+                    self.fail("C11/subscription-identifier-not-fresh", format!("subscribe {i} carries subscription identifier {sid:?} (also used by {dup:?})"));
                 }
             }
         }
@@ -1054,6 +1094,7 @@ impl<'a> Sim<'a> {
             counted_in_quota: false,
             quota_freed: false,
             completion_checked: false,
+            id_checked: false,
             size_unclear,
         });
         self.msubs.push(match kind {
@@ -1341,6 +1382,7 @@ impl<'a> Sim<'a> {
                         counted_in_quota: false,
                         quota_freed: false,
                         completion_checked: false,
+            id_checked: false,
                         size_unclear: false,
                     });
                     self.msubs.push(None);
@@ -1409,6 +1451,7 @@ impl<'a> Sim<'a> {
                         counted_in_quota: false,
                         quota_freed: false,
                         completion_checked: false,
+            id_checked: false,
                         size_unclear: false,
                     });
                     self.msubs.push(None);
@@ -1487,6 +1530,7 @@ impl<'a> Sim<'a> {
                     counted_in_quota: false,
                     quota_freed: false,
                     completion_checked: false,
+            id_checked: false,
                     size_unclear: false,
                 });
                 self.msubs.push(None);
